@@ -120,7 +120,7 @@ fn eval_single(c: &Single, seed: u64, rep: &mut Report) {
             return fail(
                 rep,
                 "reconstruct-all-differs",
-                format!("reconstruct_all(to_shares()) returned {} blobs: {:?}", v.len(), v.iter().map(blob_brief).collect::<Vec<_>>()),
+                format!("reconstruct_all(to_shares()) returned {} blobs: {}", v.len(), Value::Array(v.iter().map(blob_brief).collect())),
             );
         }
         Ok(Ok(_)) => {}
@@ -268,9 +268,9 @@ fn eval_seq(env: &SeqEnv, seq: &[usize], gaps: &[usize], seed: u64, rep: &mut Re
                     rep,
                     "reconstruct-all-differs",
                     format!(
-                        "reconstruct_all returned {:?}, expected {:?}",
-                        v.iter().map(blob_brief).collect::<Vec<_>>(),
-                        want.iter().map(|b| blob_brief(b)).collect::<Vec<_>>()
+                        "reconstruct_all returned {}, expected {}",
+                        Value::Array(v.iter().map(blob_brief).collect()),
+                        Value::Array(want.iter().map(|b| blob_brief(b)).collect())
                     ),
                 );
             } else {
